@@ -27,12 +27,20 @@ inductive Reach (P : CDProb ℝ n p) (s₀ : CDState ℝ n p) : CDState ℝ n p 
 /-- a whole epoch over any working set stays inside `Reach` -/
 theorem reach_epoch (P : CDProb ℝ n p) (s₀ s : CDState ℝ n p) (ws : List (Fin p)) (h : Reach P s₀ s) :
     Reach P s₀ (P.cdEpoch s ws) := by
-  sorry
+  unfold CDProb.cdEpoch
+  induction ws generalizing s with
+  | nil => exact h
+  | cons j ws ih => exact ih _ (Reach.coord j h)
 
 /-- C05 / C01 (I1): the model-fit buffer equals `X w + b` in every reachable state -/
 theorem reach_consistent (P : CDProb ℝ n p) (s₀ s : CDState ℝ n p) (h₀ : Consistent P s₀)
     (h : Reach P s₀ s) : Consistent P s := by
-  sorry
+  induction h with
+  | start => exact h₀
+  | coord j _ ih => exact cdStep_consistent P _ j ih
+  | intercept _ _ ih => exact interceptMove_consistent P _ ih
+  | accept inWs buf c _ _ hc hout ih ihbuf =>
+    exact acceptMove_consistent P _ _ ih (extrapPoint_consistent P inWs _ buf c hc ihbuf hout)
 
 /-- C04: every reachable state is feasible (penalties with a configured constraint), provided the
     prox steps are taken with admissible hyper-parameters -/
@@ -40,7 +48,21 @@ theorem reach_feasible (P : CDProb ℝ n p) (s₀ s : CDState ℝ n p) (h₀ : F
     (hadm : ∀ j, Admissible P.pen (P.wts j) (CDProb.stepsize (P.df.lipschitz P.X P.sw j)))
     (hg : ∀ a g pos, P.pen = .mcp a g pos ∨ P.pen = .wmcp a g pos → 0 < g)
     (h : Reach P s₀ s) : Feasible P s.w := by
-  sorry
+  induction h with
+  | start => exact h₀
+  | coord j _ ih => exact cdStep_feasible P _ j ih (hadm j)
+  | intercept _ _ ih => exact ih
+  | accept inWs buf c _ _ _ _ ih _ => exact acceptMove_feasible P _ _ ih hg
+
+theorem Ext_le_trans_aux (a b c : Ext ℝ) (h1 : Ext.le a b = true) (h2 : Ext.le b c = true) :
+    Ext.le a c = true := by
+  cases a <;> cases b <;> cases c <;>
+    first
+    | (simp [Ext.le] at h1 h2 ⊢; exact h1.trans h2)
+    | (simp [Ext.le] at h1 h2 ⊢)
+
+theorem Ext_le_refl (a : Ext ℝ) : Ext.le a a = true := by
+  cases a <;> simp [Ext.le]
 
 /-- C03: the solver's objective never increases along a run: whatever the budget, the point reached
     is no worse than the start, and (taking `s₀` to be any intermediate state) the objective is
@@ -51,12 +73,19 @@ theorem reach_descent (P : CDProb ℝ n p) (s₀ s : CDState ℝ n p) (hP : Well
     (hprox : ∀ j, ProxOptimal P j (1 / P.df.lipschitz P.X P.sw j))
     (hg : ∀ a g pos, P.pen = .mcp a g pos ∨ P.pen = .wmcp a g pos → 0 < g)
     (h : Reach P s₀ s) : Ext.le (P.objective s) (P.objective s₀) = true := by
-  sorry
+  have trans := @Ext_le_trans_aux
+  induction h with
+  | start =>
+    exact Ext_le_refl _
+  | coord j _ ih => exact trans _ _ _ (cdStep_descent P _ j hP (hL j) (hprox j) hg) ih
+  | intercept _ hfit ih =>
+    exact trans _ _ _ (interceptMove_descent P _ hP (hsvc hfit) hsw1) ih
+  | accept inWs buf c _ _ _ _ ih _ => exact trans _ _ _ (acceptMove_descent P _ _) ih
 
 /-- `Ext.le` is transitive (used to chain runs: budget `k` then budget `k' - k`) -/
 theorem Ext_le_trans (a b c : Ext ℝ) (h1 : Ext.le a b = true) (h2 : Ext.le b c = true) :
     Ext.le a c = true := by
-  sorry
+  exact Ext_le_trans_aux a b c h1 h2
 
 /-- C03 + C05 + C17 combined: in a reachable state from a consistent feasible start, the objective the
     solver computes *is* the documented objective of `(w, b)`, and it is at most the documented
@@ -69,7 +98,14 @@ theorem reach_true_descent (P : CDProb ℝ n p) (s₀ s : CDState ℝ n p) (hP :
     (hg : ∀ a g pos, P.pen = .mcp a g pos ∨ P.pen = .wmcp a g pos → 0 < g)
     (hc₀ : Consistent P s₀) (hf₀ : Feasible P s₀.w) (h : Reach P s₀ s) :
     P.objective s = .fin (trueObj P s.w s.b) ∧ trueObj P s.w s.b ≤ trueObj P s₀.w s₀.b := by
-  sorry
+  have hc := reach_consistent P s₀ s hc₀ h
+  have hf := reach_feasible P s₀ s hf₀ hadm hg h
+  have e := objective_eq_trueObj P s hc hf hg
+  have e0 := objective_eq_trueObj P s₀ hc₀ hf₀ hg
+  have d := reach_descent P s₀ s hP hsw1 hsvc hL hprox hg h
+  rw [e, e0] at d
+  simp only [Ext.le, decide_eq_true_eq] at d
+  exact ⟨e, d⟩
 
 /-- the C07 theorems discharge `ProxOptimal` for the penalties they cover -/
 theorem proxOptimal_of_admissible (P : CDProb ℝ n p) (j : Fin p) (st : ℝ)
@@ -77,7 +113,16 @@ theorem proxOptimal_of_admissible (P : CDProb ℝ n p) (j : Fin p) (st : ℝ)
             (∃ a g pos, P.pen = .mcp a g pos) ∨ (∃ a g pos, P.pen = .wmcp a g pos) ∨
             (∃ a, P.pen = .box a) ∨ P.pen = .pos)
     (hadm : Admissible P.pen (P.wts j) st) : ProxOptimal P j st := by
-  sorry
+  intro x v
+  rcases hpen with ⟨a, pos, hp⟩ | ⟨a, pos, hp⟩ | ⟨a, r, pos, hp⟩ | ⟨a, g, pos, hp⟩ |
+    ⟨a, g, pos, hp⟩ | ⟨a, hp⟩ | hp <;> rw [hp] at hadm ⊢
+  · exact C07.prox_l1 a pos _ x st hadm v
+  · exact C07.prox_wl1 a pos _ x st hadm v
+  · exact C07.prox_l1l2 a r pos _ x st hadm v
+  · exact C07.prox_mcp a g pos _ x st hadm v
+  · exact C07.prox_wmcp a g pos _ x st hadm v
+  · exact C07.prox_box a _ x st hadm v
+  · exact C07.prox_pos _ x st hadm v
 
 /-- the C08 theorems discharge the score hypothesis of `stopCrit_certificate` -/
 theorem score_is_distance (pn : SepPen ℝ) (wt w grad : ℝ) (hadm : ∃ s, Admissible pn wt s)
@@ -85,7 +130,31 @@ theorem score_is_distance (pn : SepPen ℝ) (wt w grad : ℝ) (hadm : ∃ s, Adm
     (hscad : ∀ a g, pn = .scad a g → 1 < g)
     (hroot : ∀ a, pn = .l05 a ∨ pn = .l23 a → 0 < a) :
     IsDistToSubdiff (pen pn wt) w grad (pn.sd1 wt w grad) := by
-  sorry
+  obtain ⟨s, _, hwt, hrest⟩ := hadm
+  cases pn with
+  | l1 a pos => exact C08.sd_l1 a pos wt w grad hrest
+  | l1l2 a r pos =>
+    have h' : 0 ≤ a ∧ 0 ≤ r ∧ r ≤ 1 := hrest
+    exact C08.sd_l1l2 a r pos wt w grad h'.1 h'.2.1 h'.2.2
+  | wl1 a pos => exact C08.sd_wl1 a pos wt w grad hrest hwt
+  | mcp a g pos =>
+    have h' : 0 ≤ a ∧ 0 < g ∧ s < g := hrest
+    exact C08.sd_mcp a g pos wt w grad h'.1 h'.2.1
+  | wmcp a g pos =>
+    have h' : 0 ≤ a ∧ 0 < g ∧ wt * s < g := hrest
+    exact C08.sd_wmcp a g pos wt w grad h'.1 h'.2.1 hwt
+  | scad a g =>
+    have h' : 0 ≤ a ∧ 2 < g ∧ s < g - 1 := hrest
+    exact C08.sd_scad a g wt w grad h'.1 (hscad a g rfl)
+  | box a =>
+    obtain ⟨ha, hw0, hwa⟩ := hbox a rfl
+    exact C08.sd_box a wt w grad ha hw0 hwa
+  | l05 a => exact C08.sd_l05 a wt w grad (hroot a (Or.inl rfl))
+  | l23 a => exact C08.sd_l23 a wt w grad (hroot a (Or.inr rfl))
+  | logsum a e =>
+    have h' : 0 ≤ a ∧ 0 < e := hrest
+    exact C08.sd_logsum a e wt w grad h'.1 h'.2
+  | pos => exact C08.sd_pos wt w grad
 
 /-- C01 for AndersonCD (sub-differential strategy): in any reachable state, if the stopping criterion
     is at most `tol` then `(w, b)` satisfies first-order optimality within `tol` for the documented
@@ -98,6 +167,11 @@ theorem reach_stop_certificate (P : CDProb ℝ n p) (s₀ s : CDState ℝ n p) (
     (hroot : ∀ a, P.pen = .l05 a ∨ P.pen = .l23 a → 0 < a)
     (hstop : P.stopCrit false s = .fin c) (hc : c ≤ tol) :
     Certificate P s.w s.b tol := by
-  sorry
+  have hcs := reach_consistent P s₀ s hc₀ h
+  have hscale : 1 ≤ P.df.interceptScale := by
+    cases P.df <;> simp [DF.interceptScale]
+  refine stopCrit_certificate P s c tol hcs (fun j => ?_) hscale hstop hc
+  exact score_is_distance P.pen (P.wts j) (s.w j) _ (hadm j)
+    (fun a hp => ⟨(hbox a hp).1, (hbox a hp).2 j⟩) hscad hroot
 
 end Skglm.Proofs
